@@ -54,7 +54,11 @@ prop("C13",
                   "(is_trivial() documents a 1e-4 tolerance); its bins outside the symmetric tangential fan carry efficiency 0 and "
                   "are exempt from the positivity clause (counted)",
                   "the physical attenuation phantom lives in an image with one extra plane at each end so that every tube of response "
-                  "lies inside the object; the on-the-fly ray tracing projector is only used on square isotropic grids whose voxels "
-                  "are at least as large as the tangential sampling, even number of views, no view offset (its documented domain)",
+                  "lies inside the object; the on-the-fly ray tracing projector (the class's default) is only used on grids with a "
+                  "square index range (it addresses the image with x and y exchanged) whose voxels are at least as large as the "
+                  "tangential sampling, even number of views, no view offset (its documented domain), physical oracle only",
+                  "block-geometry scanners are generated without TOF (Scanner::check_consistency reads max_FOV_radius before it is "
+                  "initialised for TOF block scanners - not this property's subject); arc-corrected data keep every line of response "
+                  "inside the detector ring",
                   "at most one member with a calibration factor per chain (ChainedBinNormalisation rejects two)"],
      )
